@@ -33,6 +33,11 @@ func (o *obj) MarshalZerologObject(e *zerolog.Event) {
 	e.Int("id", o.id).Dict("inner", zerolog.Dict().Str("x", "y"))
 }
 
+// userArr is a LogArrayMarshaler that is not a *zerolog.Array (Event.Array then uses a pooled scratch array).
+type userArr struct{ t, i int }
+
+func (u userArr) MarshalZerologArray(a *zerolog.Array) { a.Int(u.t).Str("ua").Int(u.i) }
+
 type addHook struct{}
 
 func (addHook) Run(e *zerolog.Event, l zerolog.Level, m string) { e.Str("hook", "h:"+m) }
@@ -49,6 +54,8 @@ func emit(lg *zerolog.Logger, kind string, t, i int) {
 	case "nested":
 		lg.Info().Int("t", t).Dict("d", zerolog.Dict().Int("i", i).Dict("dd", zerolog.Dict().Str("s", "v"))).
 			Array("a", zerolog.Arr().Int(t).Object(&obj{i}).Dict(zerolog.Dict().Int("q", t))).Object("o", &obj{t}).Msg("nested")
+	case "marsh": // a user LogArrayMarshaler, an Errs and an Err of an object marshaler: the pooled scratch paths
+		lg.Info().Int("t", t).Array("m", userArr{t, i}).Errs("es", []error{fmt.Errorf("e%d", i), nil}).Msg("marsh")
 	case "drop": // discarded by discardHook (loggers without it write it)
 		lg.Info().Int("t", t).Int("i", i).Msg("drop")
 	case "fields":
@@ -336,6 +343,8 @@ func plans(tier string) []drv.Plan {
 	add("hooked/plain/tiny,tiny;nested", b2)
 	add("global/plain/tiny;tiny;tiny", b2)
 	add("derived/plain/tiny,tiny;tiny", b2)
+	add("shared/plain/marsh,nested;nested", b2)
+	add("children/plain/marsh;marsh,nested", b2)
 	add("discarding/plain/drop,tiny;tiny,drop", b2)
 	add("discarding/plain/drop;drop;nested", 3)
 	add("derived/plain/nested;tiny;tiny", 3)
